@@ -188,6 +188,8 @@ def gen_movie(rng, thorough=False, plant_history=False, dense=False):
         inp["maxsize"] = rng.choice([2, 3, 4, 6, 12, 40])
     if fine:
         inp["fine"] = fine
+    if rng.random() < 0.25:
+        inp["linker_reuse"] = True      # (link_iter entry only) see run_impl
     return inp
 
 
@@ -218,6 +220,28 @@ def shifted_frames(inp):
         else:
             out.append([list(p) for p in pts])
     return out
+
+
+def _reused_linker(pairs, sr, kw):
+    """what link_iter does (linking.py: `Linker(search_range, **kwargs)`, `init_level`, `next_level`,
+    `particle_ids`), on a Linker that has been through the whole movie once already"""
+    from trackpy.linking.linking import Linker
+    from trackpy.linking.utils import SubnetOversizeException
+    linker = Linker(sr, **kw)
+    try:
+        for k, (t, a) in enumerate(pairs):
+            if k == 0:
+                linker.init_level(a.copy(), t)
+            else:
+                linker.next_level(a.copy(), t)
+    except SubnetOversizeException:
+        pass                    # the second pass raises at the same place and is judged there
+    for k, (t, a) in enumerate(pairs):
+        if k == 0:
+            linker.init_level(a, t)
+        else:
+            linker.next_level(a, t)
+        yield t, linker.particle_ids
 
 
 def run_impl(inp, extra_kwargs=None, predictor=None):
@@ -267,6 +291,11 @@ def run_impl(inp, extra_kwargs=None, predictor=None):
             elif container == 3:
                 src = tuple(it())
         gen = tp.link_iter(src, sr, **kw)
+        # ... or by a Linker OBJECT that has linked another sequence before (the class is public;
+        # `init_level` starts a new sequence): what the first sequence left behind — remembered
+        # features, ids — must not reach the second one.  The first sequence is the movie itself.
+        if inp.get("linker_reuse") and not reuse_buf:
+            gen = _reused_linker(list(it()), sr, kw)
         # two kinds of consumer: one reads each yielded list at once, the other keeps the yielded
         # objects and reads them when the generator is exhausted (`list(tp.link_iter(...))`): what was
         # yielded for a level must not change afterwards
